@@ -152,6 +152,13 @@ impl Check for C09Shuttle {
         "shuttle"
     }
 
+    /// `rand::rng()` is deliberately not replaced (live randomness is what the property is
+    /// about), so messages that quote the words drawn differ between processes: a replay
+    /// reproduces when the same finding recurs, not when the message is byte-identical.
+    fn nondeterminism_is_finding(&self) -> bool {
+        true
+    }
+
     fn rule(&self) -> String {
         "shuttle leg: Generation<Vec<Ind>, Maker>::par_next (unchanged generation.rs compiled against the rayon stand-in) for populations \
          0..=8, 1-3 steps, child-maker failures at enumerated arrival positions (none / one at each position / two / all) followed by a \
